@@ -3,6 +3,30 @@ TRUST = ("trusted: CPython ast; the checker's own engines; for table rules the i
          "against the real loaders at development time). Known findings are listed in KNOWN_FINDINGS.txt. ")
 
 META = {
+    "C17": {
+        "engine": "sa: abstract domains (congruence x interval, extent tag), reachability formulas, layout engine, def-use",
+        "technique": "abstract interpretation of the grid arithmetic in a congruence x interval domain and a "
+                     "'>= extent' tag domain; path-formula evaluation of the record guard over all truth assignments",
+        "text": "proves for all inputs that every stored grid count is = 1 (mod 32) and >= 33 and is computed on every "
+                "path to the APBS input; that mol/coarse/fine lengths are >= the molecule extent with the default "
+                "parameters and fine <= coarse; that the centre is the box midpoint and both grids are centred on the "
+                "molecule; that extrema accumulate centre -/+ radius from the tokens the PQR writer's layout puts there "
+                "(both layouts); that no line other than ATOM/HETATM can reach the accumulation (formula over all "
+                "assignments of the enclosing tests); memory product over all three dimensions; PQR-name def-use chain.",
+        "note": TRUST + "Side conditions: default sizing parameters (cfac >= 1, fadd >= 0).",
+    },
+    "C18": {
+        "engine": "sa: constant folding, slice-bound reasoning, key agreement",
+        "technique": "extraction of the chunk loop's step/slice bounds/arm conditions and exhaustive arithmetic check "
+                     "of the index partition over one period; producer/consumer dictionary-key agreement; token-index "
+                     "extraction",
+        "text": "the value loop's arms are read from the source and the induced index sets are shown to cover [0,n) "
+                "exactly once and in order for every n over five periods of the step (the bounds are periodic), which "
+                "settles 'exactly nx*ny*nz values in the same order for counts not divisible by three or six'; reader and "
+                "writer agree on the four keys; counts/origin/delta come from the documented tokens; signed-count "
+                "convention, origin line, one unconditional line per atom; value precision.",
+        "note": TRUST,
+    },
     "C10": {
         "engine": "sa: E3b string-layout abstract interpretation + sibling cross-check",
         "technique": "layout abstract interpretation of the CIF record assembler on all paths vs column slices "
